@@ -183,8 +183,10 @@ func discover() (map[string]*Group, error) {
 			attrs := ""
 			if fd.Doc != nil {
 				for _, c := range fd.Doc.List {
-					if strings.HasPrefix(c.Text, "//vcheck:") {
-						attrs += " " + strings.TrimPrefix(c.Text, "//vcheck:")
+					// gofmt rewrites "//vcheck: x" in doc comments to "// vcheck: x"
+					t := strings.TrimPrefix(strings.TrimPrefix(c.Text, "//"), " ")
+					if strings.HasPrefix(t, "vcheck:") {
+						attrs += " " + strings.TrimPrefix(t, "vcheck:")
 					}
 				}
 			}
